@@ -176,6 +176,11 @@ def history_case(ctx, case):
     if state == 'timeout':
         from vlib.core import HarnessError
         raise HarnessError('C11 case did not settle')
+    if state == 'runaway':
+        ctx.fail('history', 'K4-endless-reconnect-loop', case,
+                 'more than %d TCP connections in one scenario'
+                 % world.max_connects)
+        return
     if state == 'blocked':
         ctx.fail('history', 'K-client-blocks-in-read', case,
                  'the client waits for ever for bytes the server never '
@@ -294,6 +299,8 @@ def _replies_equal(got, want):
 
 
 def real_history_case(ctx, case):
+    if ctx.labels.get('real_socket_run_inconclusive_timeout', 0) >= 2:
+        return          # stop burning wall-clock on a hanging client
     """The same history over real loopback TCP (validation of the
     in-memory transport): K1/K2/K4 only, end = disconnect."""
     from vlib import realnet
@@ -323,8 +330,11 @@ def real_history_case(ctx, case):
                           handle_exception=lambda e, i: excs.append(e),
                           handle_exit=lambda: exits.append(1))
         conn.connect()
-        if world.settle(conn) != 'done':
-            raise HarnessError('real-socket run did not settle (timeout)')
+        if world.settle(conn, 8.0) != 'done':
+            # inconclusive (slow machine or a hang): the in-memory tasks
+            # decide; only counted
+            ctx.label('real_socket_run_inconclusive_timeout')
+            return
     finally:
         world.close()
     srv = srvs[0]
